@@ -47,10 +47,11 @@ impl Monitor for C18 {
             ("queue_states_compared_after_crash", tier.pick(20_000, 500_000)),
             ("crash_continuations_run", tier.pick(5_000, 100_000)),
             ("ondelay_crash_images_checked_for_a_quiet_queue", tier.pick(300, 6_000)),
+            ("queue_states_compared_after_power_loss", tier.pick(5_000, 120_000)),
         ]
     }
     fn rule(&self) -> String {
-        "case = one generated history H over k = 2..6 queues (gc / idle / delete / mixed profiles, restarts) under Always(Flush), run once in full and once per queue q as the projection H|q (the calls addressed to q plus every restart and persist, with the same payload bytes) on a fresh directory; evaluation = one call on q (outcome and exists/range/last_position of q identical in both runs), one restart comparison, or one queue compared after recovering a crash image of the FULL run (effect boundaries and torn writes inside calls addressed to other queues, and between calls) with its state in the projected run at the corresponding point; on sampled crash points (all torn writes) the rest of the history is replayed on the recovered log, the log restarted, and the other queues compared with the end of the full run; distinct_nontrivial = distinct (queue, its state digest, number of other-queue calls interleaved since its last call) among comparisons made after another queue's call unlinked a WAL file".into()
+        "case = one generated history H over k = 2..6 queues (gc / idle / delete / mixed profiles, restarts) under Always(Flush), run once in full and once per queue q as the projection H|q (the calls addressed to q plus every restart and persist, with the same payload bytes) on a fresh directory; evaluation = one call on q (outcome and exists/range/last_position of q identical in both runs), one restart comparison, or one queue compared after recovering a crash image of the FULL run (effect boundaries and torn writes inside calls addressed to other queues, and between calls) with its state in the projected run at the corresponding point; on sampled crash points (all torn writes) the rest of the history is replayed on the recovered log, the log restarted, and the other queues compared with the end of the full run; one case in four re-runs a prefix of H under Always(FlushAndFsync) and recovers three power-loss images of the final call boundary (never-synced files absent / empty / zero-filled): every queue other than the one addressed last must be exactly as it was live; distinct_nontrivial = distinct (queue, its state digest, number of other-queue calls interleaved since its last call) among comparisons made after another queue's call unlinked a WAL file".into()
     }
     fn assumptions(&self) -> Vec<String> {
         vec!["crash leg: inside a call addressed to q itself the C02 tolerance applies and q is skipped; every other queue must be exactly as in its projection".into()]
@@ -172,6 +173,59 @@ impl Monitor for C18 {
                 }
                 drop(s);
             }
+        }
+
+        // ---- power-loss leg (one case in four) ------------------------------------------------
+        // The same history, cut at a random call, under Always(FlushAndFsync): every call that
+        // returned is durable, so after a power loss at the call boundary (only what an fsync
+        // covered survives; files whose directory entry was never synced are gone, empty or
+        // zero-filled) EVERY queue is as it was live - whichever queue the last calls, and the
+        // roll-overs and deletions of files they caused, were addressed to.
+        if case % 4 == 3 {
+            let cut = rng.usize(ops.len() / 2, ops.len());
+            let pdir = ctx.scratch.sub("c18-power");
+            if let Ok(run) = live_run_ops(&pdir, Policy::AlwaysFsync, key, &ops[..cut]) {
+                let mut b = Builder::new(run.initial.clone());
+                for e in &run.events {
+                    b.apply(e);
+                }
+                let live = run.states.last().cloned().unwrap_or_default();
+                let last_q = ops[..cut].iter().rev().find_map(|o| o.queue().map(|s| s.to_string()));
+                for ns in [crate::image::NeverSynced::Absent, crate::image::NeverSynced::ZeroLen, crate::image::NeverSynced::ZeroFilled] {
+                    let img = b.power_image(ns, 0);
+                    let side = ctx.scratch.sub("c18-power-rec");
+                    img.materialize(&side);
+                    let (r, sut, _) = recover(&side, Policy::AlwaysFsync, key);
+                    drop(sut);
+                    acc.eval();
+                    acc.count("power_loss_images_compared_at_a_call_boundary");
+                    match r {
+                        Recovered::Ok(got) => {
+                            for q in &names {
+                                if Some(q) == last_q.as_ref() {
+                                    continue;
+                                }
+                                acc.count("queue_states_compared_after_power_loss");
+                                if live.queues.get(q) != got.queues.get(q) {
+                                    acc.violation(
+                                        format!("C18/queue-differs-after-power-loss-following-calls-on-other-queues/Always(FlushAndFsync)/{:?}", ns),
+                                        case,
+                                        json!({
+                                            "history": run.history_json(cut), "queue": short(q), "last_call_addressed": last_q.as_deref().map(short),
+                                            "live_state": live.queues.get(q).map(|s| json!({"positions": crate::ops::span(&s.recs.iter().map(|r| r.pos).collect::<Vec<_>>()), "last_position": s.last_position})),
+                                            "recovered_state": got.queues.get(q).map(|s| json!({"positions": crate::ops::span(&s.recs.iter().map(|r| r.pos).collect::<Vec<_>>()), "last_position": s.last_position})),
+                                            "image": img.describe(),
+                                        }),
+                                    );
+                                    return;
+                                }
+                            }
+                        }
+                        other => acc.count(&format!("power_loss_recovery_not_ok_(C03_territory)_{}", super::c02::recovered_sig(&other).chars().take(24).collect::<String>())),
+                    }
+                }
+            }
+            crate::util::clear_dir(&pdir);
         }
 
         // ---- projections ----------------------------------------------------------------
